@@ -1,11 +1,11 @@
-use std::{collections::HashMap, fmt::Write};
+use std::{collections::BTreeMap, fmt::Write};
 
 use crate::{escape::gen_lit_str, proc_gen::JsFunctionScopeWriter, TmplError};
 
 #[derive(Debug, Clone)]
 pub(crate) struct BindingMapCollector {
     overall_disabled: bool,
-    fields: HashMap<String, BindingMapField>,
+    fields: BTreeMap<String, BindingMapField>,
 }
 
 #[derive(Debug, Clone)]
@@ -18,7 +18,7 @@ impl BindingMapCollector {
     pub(crate) fn new() -> Self {
         Self {
             overall_disabled: false,
-            fields: HashMap::new(),
+            fields: BTreeMap::new(),
         }
     }
 
